@@ -191,6 +191,13 @@ func short(b []byte) string {
 	return fmt.Sprintf("%x", b)
 }
 
+// scribble overwrites a slice the driver handed to a write operation (after the reference copy was taken)
+func scribble(b []byte) {
+	for i := range b {
+		b[i] = 0xEE
+	}
+}
+
 func flatten(bs [][]byte) []byte {
 	var out []byte
 	for _, b := range bs {
@@ -363,6 +370,9 @@ func (m *machine) exec(op tr.Line) {
 			}
 			m.obs(tr.L("write", tr.I(n), errSym(err)))
 			m.ref = append(m.ref, data...)
+			// the caller's slice is the caller's again once Write has returned (io.Writer): it is overwritten here,
+			// so a buffer that kept a reference instead of a copy shows other bytes later
+			scribble(data)
 			if n != len(data) || err != nil {
 				m.fail(site, "result", fmt.Sprintf("n=%d err=%v len=%d", n, err, len(data)))
 			}
@@ -395,6 +405,9 @@ func (m *machine) exec(op tr.Line) {
 			n, err := m.mb.Writev(bs)
 			m.obs(tr.L("writev", tr.I(n), errSym(err)))
 			m.ref = append(m.ref, flatten(bs)...)
+			for _, b := range bs {
+				scribble(b)
+			}
 			if n != tot || err != nil {
 				m.fail(site, "result", fmt.Sprintf("n=%d err=%v total=%d", n, err, tot))
 			}
